@@ -411,7 +411,9 @@ func runC24(p *core.Prog, r *core.Report) {
 					continue
 				}
 				reset := false
-				for _, cs := range core.CallSites([]*ssa.Function{cal}, func(s core.Site) bool { return s.Call.Common().IsInvoke() && s.Call.Common().Method.Name() == "Reset" || strings.HasSuffix(s.Name, ").Reset") }) {
+				for _, cs := range core.CallSites([]*ssa.Function{cal}, func(s core.Site) bool {
+					return s.Call.Common().IsInvoke() && s.Call.Common().Method.Name() == "Reset" || strings.HasSuffix(s.Name, ").Reset")
+				}) {
 					ci := cs.Call.(ssa.Instruction)
 					recv := cs.Call.Common().Value
 					if !cs.Call.Common().IsInvoke() && len(cs.Call.Common().Args) > 0 {
